@@ -12,6 +12,10 @@ Python being modelled (line numbers of streamz/sources.py):
   where `offset` is the batch's `high`; 517-520 `checkpoint_emit`: every batch is
   emitted with `RefCounter(cb = commit)`; the callback runs when the count reaches 0
   (core.py 100-112), i.e. when the last holder downstream released it  -> `completePart`.
+* a failure below the source while a batch is handled (`fail`): `Stream._emit` (core.py 447-460)
+  releases the reference taken for a downstream only after its `update` returned, so an exception
+  leaves the counter above zero for ever -> `failPart`; the batch is emitted from its own loop
+  callback (580), so the polling loop goes on.
 * 522-542 start of `poll_kafka`: `npartitions` from `list_topics` unless given,
   `positions = [0]*n`, then `positions[tp.partition] = tp.offset` from
   `consumer.committed(tps)` (`-1001` when the group has no offset)            -> `restartPart`.
@@ -35,6 +39,10 @@ structure Batch where
   lo : Int
   hi : Int
   done : Bool
+  /-- the pipeline below the source raised while handling this batch: the references taken for it
+  are never given back (core.py 447-460: `_emit` releases a downstream's reference only after
+  `update` returned), so its counter can never reach zero -/
+  failed : Bool
 deriving Repr, DecidableEq
 
 structure Part where
@@ -80,6 +88,11 @@ inductive Act
   | poll
   /-- the reference counter of batch `i` (oldest first, this incarnation) of partition `p` reaches 0 -/
   | complete (p i : Nat)
+  /-- something below the source (get_message_batch in the starmap, a map function, a sink, an awaited
+  consumer) raises while handling batch `i` of partition `p`; the polling loop itself is not affected:
+  batches are emitted from loop callbacks (`loop.add_callback(checkpoint_emit, part)`, 580), the
+  exception ends that callback only -/
+  | fail (p i : Nat)
   /-- the process dies and a new one is started with the same group id and the original configuration -/
   | restart
 deriving Repr, DecidableEq
@@ -106,14 +119,23 @@ def pollPart (mb : Nat) (rl : Bool) (q : Part) : Part :=
   let high' := if q.high > lowest + mb then lowest + mb else q.high
   -- 573-576
   if high' > lowest then
-    { q with pos := high', batches := q.batches ++ [{ lo := lowest, hi := high' - 1, done := false }] }
+    { q with pos := high', batches := q.batches ++ [{ lo := lowest, hi := high' - 1, done := false, failed := false }] }
   else { q with pos := pos1 }
 
-/-- 512-515 via core.py 100-112: the counter of batch `i` reaches zero -> `commit(high + 1)`. -/
-def completePart (i : Nat) (q : Part) : Part :=
+/-- The handling of batch `i` raised: it stays not done for ever (nothing is committed for it). -/
+def failPart (i : Nat) (q : Part) : Part :=
   match q.batches[i]? with
   | some b =>
     if b.done then q
+    else { q with batches := q.batches.modify i (fun b => { b with failed := true }) }
+  | none => q
+
+/-- 512-515 via core.py 100-112: the counter of batch `i` reaches zero -> `commit(high + 1)`.
+A batch whose handling raised never gets there. -/
+def completePart (i : Nat) (q : Part) : Part :=
+  match q.batches[i]? with
+  | some b =>
+    if b.done || b.failed then q
     else { q with batches := q.batches.modify i (fun b => { b with done := true }), committed := b.hi + 1 }
   | none => q
 
@@ -129,6 +151,7 @@ def step (cfg : Cfg) (s : St) : Act → St
     { parts := s.parts.map (fun q => pollPart cfg.maxBatch s.resetLatest (if cfg.refresh then discoverPart q else q)),
       resetLatest := false }
   | .complete p i => { s with parts := s.parts.modify p (completePart i) }
+  | .fail p i => { s with parts := s.parts.modify p (failPart i) }
   | .restart =>
     { parts := s.parts.mapIdx (fun j q => restartPart (decide (j < cfg.npartCfg.getD s.parts.length)) q),
       resetLatest := cfg.latest }
